@@ -188,7 +188,7 @@ def gen_filler(d, unicode_text=False):
 SEP_REGIMES = ["lf", "lf", "crlf", "cr", "mixed"]
 
 
-def gen_file(d, path, pat_idx, npatterns_total, regime=None, unicode_text=False, share_lines=True, once_each=False):
+def gen_file(d, path, pat_idx, npatterns_total, regime=None, unicode_text=False, share_lines=True, once_each=False, alone=()):
     """lines with planted occurrences; every pattern of pat_idx occurs at least once; at most one occurrence per
     pattern and line"""
     regime = regime or d.choice(SEP_REGIMES)
@@ -200,12 +200,15 @@ def gen_file(d, path, pat_idx, npatterns_total, regime=None, unicode_text=False,
         for _ in range(d.int(0, 2)):
             lines.append([["t", gen_filler(d, unicode_text)]])
         here = [plant.pop()]
-        while plant and share_lines and d.chance(1, 3) and plant[-1] not in here:
+        while plant and share_lines and d.chance(1, 3) and plant[-1] not in here and plant[-1] not in alone and here[0] not in alone:
             here.append(plant.pop())
         segs = [["t", gen_filler(d, unicode_text)]]
-        for pi in here:
+        for n_here, pi in enumerate(here):
             segs.append(["o", pi])
-            segs.append(["t", " " + gen_filler(d, unicode_text)])
+            if n_here + 1 < len(here) and d.chance(1, 4):
+                segs.append(["t", ""])  # the next occurrence follows at once (touching spans)
+            else:
+                segs.append(["t", " " + gen_filler(d, unicode_text)])
         lines.append(segs)
     for _ in range(d.int(0, 2)):
         lines.append([["t", gen_filler(d, unicode_text)]])
@@ -239,7 +242,7 @@ NAMES = ["README.md", "setup.py", "src/pkg/__init__.py", "docs/conf.py", "CHANGE
 
 
 def gen_project(d, vast, state, pep_shaped, max_files=5, max_patterns=4, unicode_text=False, regimes=None, share_lines=True,
-                allow_glob=True, allow_partial=True, once_each=False, cover_config=False):
+                allow_glob=True, allow_partial=True, once_each=False, cover_config=False, nested=False):
     nfiles = d.int(1, max_files)
     names = d.shuffle(NAMES)[:nfiles]
     patterns, entries, files = [], [], []
@@ -266,6 +269,20 @@ def gen_project(d, vast, state, pep_shaped, max_files=5, max_patterns=4, unicode
             patterns += pats
             entries.insert(d.int(0, len(entries)), [g1, [len(patterns) - 1]])
             file_pat[g1] = file_pat[g1] + [len(patterns) - 1]
+    if nested:
+        # a pattern whose text also occurs INSIDE the occurrences of an earlier pattern of the same file ('"{version}"'
+        # next to 'ver3="{version}"'): bumpver keeps the first pattern's match and drops the overlapping one, the text
+        # that results is the same either way; the nested pattern has occurrences of its own as well
+        for name in [nm for nm in file_pat if "*" not in nm and not nm.startswith("glob/")]:
+            cands = [i for i in file_pat[name] if patterns[i]["kind"] in ("version", "full") and patterns[i]["d1"] and patterns[i]["d2"]]
+            if cands and d.chance(1, 5):
+                a = patterns[d.choice(cands)]
+                d1, d2 = a["d1"][-1:], a["d2"][:1]
+                patterns.append({"kind": "version", "raw": _esc(d1) + "{version}" + _esc(d2), "ast": [["lit", d1]] + vast + [["lit", d2]],
+                                 "d1": d1, "d2": d2, "nested": True})
+                entry = next(e for e in entries if e[0] == name)
+                entry[1].append(len(patterns) - 1)
+                file_pat[name] = file_pat[name] + [len(patterns) - 1]
     config_marks = []
     if cover_config:
         # a glob entry that also covers the config file itself: its pattern is planted in a comment line of the
@@ -276,7 +293,8 @@ def gen_project(d, vast, state, pep_shaped, max_files=5, max_patterns=4, unicode
         entries.insert(d.int(0, len(entries)), ["*.toml", [len(patterns) - 1]])
     for name, idx in file_pat.items():
         regime = d.choice(regimes) if regimes else None
-        files.append(gen_file(d, name, idx, len(patterns), regime, unicode_text, share_lines, once_each or (regime or "") == "mixed"))
+        files.append(gen_file(d, name, idx, len(patterns), regime, unicode_text, share_lines, once_each or (regime or "") == "mixed",
+                              alone=[i for i in idx if patterns[i].get("nested")]))
     for f in files:
         if f["regime"] == "mixed":
             # bumpver's notion of a line differs from ours under mixed separators: plant every pattern once only
@@ -354,6 +372,10 @@ def construction_ok(spec, state):
                 else:
                     got = ref_search(pat["ast"], line)
                 if got != planted.get(i):
+                    if got is not None and planted.get(i) is None and pat.get("nested") and any(
+                            j != i and spec["patterns"][j]["kind"] in ("version", "full") and lo <= got[0] and got[1] <= hi
+                            for j, (lo, hi) in planted.items()):
+                        continue  # inside the occurrence of another full-version pattern: same text either way
                     return "pattern %d matches at %r, planted at %r" % (i, got, planted.get(i))
     return None
 
